@@ -375,6 +375,9 @@ def _check_method(chk, F, t, m, mi, props):
                what='info().default_impl flag %s for a %s method' % (flagged, 'provided' if m['provided'] else 'required'), found={'flagged': flagged, 'provided': m['provided']})
     if 'C19' in props:
         chk.ob('R19.3', '%s: panic messages will name %s::%s' % (where, tname, mname), names == ['"%s"' % tname, '"%s"' % mname], config=cfg, fn=fn, site=site + ':path', what='info path %s' % names, found=names)
+    if 'C16' in props:
+        # "if no function was registered the call panics naming the method": the name every message uses is the trait method's own
+        chk.ob('R16.7', '%s: panic messages will name %s::%s' % (where, tname, mname), names == ['"%s"' % tname, '"%s"' % mname], config=cfg, fn=fn, site=site + ':path', what='info path %s' % names, found=names)
     if 'C18' in props and (t['trait_generic'] or any(p['kind'] == 'generic' for p in m['params'])):
         gargs = F_ty[F_ty.index('<') + 1:-1] if '<' in F_ty else ''
         want = (['TG'] if t['trait_generic'] else []) + (['G'] if any(p['kind'] == 'generic' for p in m['params']) else [])
